@@ -9,11 +9,14 @@ ATOM5 = ["`a b`", "[a b]", "<a b>"]          # 5-column atomic constructs with a
 PLAIN = "xyzuvw"
 
 
-def concretise(words: list[dict], variant: int = 0) -> list[str]:
-    """Abstract words -> concrete tokens of exactly the modelled length. Deterministic in (index, variant)."""
+def concretise(words: list[dict], variant: int = 0, positional: bool = True) -> list[str]:
+    """Abstract words -> concrete tokens of exactly the modelled length. Deterministic in (index, variant);
+    with positional=False the token depends on the word record only (needed when indices shift: C11 edits)."""
     out = []
     for j, w in enumerate(words):
         k, n = w["k"], w["n"]
+        if not positional:
+            j = n
         if k == "p":
             c = PLAIN[(j + variant) % len(PLAIN)]
             out.append(c * n)
